@@ -143,6 +143,17 @@ func GuardedNonNil(info *types.Info, par map[ast.Node]ast.Node, stmt ast.Node, o
 // facts of the condition with pred.  Statements preceding stmt in each
 // enclosing list up to the guard must not assign killObj.
 func guardedBy(info *types.Info, par map[ast.Node]ast.Node, stmt ast.Node, pred func(Fact) bool, killObj types.Object) bool {
+	return guardedByX(info, par, stmt, pred, killObj, false)
+}
+
+// GuardedByFactAcrossClosures is GuardedByFact that also looks at the guards
+// enclosing the function literal the statement is in (sound when the closure is
+// invoked synchronously and the guarded variable is not reassigned).
+func GuardedByFactAcrossClosures(info *types.Info, par map[ast.Node]ast.Node, stmt ast.Node, pred func(Fact) bool, killObj types.Object) bool {
+	return guardedByX(info, par, stmt, pred, killObj, true)
+}
+
+func guardedByX(info *types.Info, par map[ast.Node]ast.Node, stmt ast.Node, pred func(Fact) bool, killObj types.Object, crossClosures bool) bool {
 	cur := stmt
 	for cur != nil {
 		p := par[cur]
@@ -150,8 +161,12 @@ func guardedBy(info *types.Info, par map[ast.Node]ast.Node, stmt ast.Node, pred 
 			return false
 		}
 		switch pp := p.(type) {
-		case *ast.FuncLit, *ast.FuncDecl:
+		case *ast.FuncDecl:
 			return false
+		case *ast.FuncLit:
+			if !crossClosures {
+				return false
+			}
 		case *ast.BlockStmt, *ast.CaseClause, *ast.CommClause:
 			list, idx := StmtListOf(par, cur)
 			if idx < 0 {
@@ -184,6 +199,19 @@ func guardedBy(info *types.Info, par map[ast.Node]ast.Node, stmt ast.Node, pred 
 						if pred(f) {
 							return true
 						}
+					}
+				}
+				// tagged switch: the clause is entered when the tag equals one of its expressions;
+				// the guard holds if it holds for every one of them
+				if sw, ok := par[par[cc]].(*ast.SwitchStmt); ok && sw.Tag != nil && len(cc.List) > 0 {
+					all := true
+					for _, ce := range cc.List {
+						if !pred(Fact{Expr: ce, Val: true, Tag: sw.Tag}) {
+							all = false
+						}
+					}
+					if all {
+						return true
 					}
 				}
 			}
